@@ -25,7 +25,7 @@ PROPS = {
     "C05": dict(mod="checks.c05", quick_runs=64, thorough_s=1500, opts=dict()),
     "C06": dict(mod="checks.c06", quick_runs=48, thorough_s=1500, opts=dict(max_nodes=4, max_steps=8, compiled_p=0.4), thorough_opts=dict(max_nodes=5, max_steps=12, compiled_p=0.6)),
     "C07": dict(mod="checks.c07", quick_runs=32, thorough_s=1500, opts=dict(max_nodes=4, max_steps=8, pairs=2, generated_p=0.3), thorough_opts=dict(max_nodes=5, max_steps=12, pairs=6, generated_p=0.3)),
-    "C08": dict(mod="checks.c08", quick_runs=32, thorough_s=1500, opts=dict(max_nodes=4, max_steps=9, variants=2), thorough_opts=dict(max_nodes=5, max_steps=12, variants=5)),
+    "C08": dict(mod="checks.c08", quick_runs=32, thorough_s=1500, opts=dict(max_nodes=4, max_steps=14, variants=3), thorough_opts=dict(max_nodes=5, max_steps=20, variants=6)),
     "C10": dict(mod="checks.c10", quick_runs=24, thorough_s=1500, opts=dict(max_nodes=3, max_steps=9), thorough_opts=dict(max_nodes=4, max_steps=12)),
     "C13": dict(mod="checks.c13", quick_runs=48, thorough_s=1500, opts=dict(max_nodes=4, variants=4, compiled_p=0.35), thorough_opts=dict(max_nodes=5, variants=8, compiled_p=0.6)),
     "C16": dict(mod="checks.c16", quick_runs=48, thorough_s=1200, opts=dict(max_nodes=4), thorough_opts=dict(max_nodes=5)),
@@ -43,6 +43,7 @@ def main(argv) -> int:
     ap.add_argument("--budget", type=float, default=float(os.environ["VERIF_BUDGET_S"]) if os.environ.get("VERIF_BUDGET_S") else None)
     ap.add_argument("--seed", type=int, default=int(os.environ.get("VERIF_SEED", "20260927")))
     ap.add_argument("--no-minimise", action="store_true")
+    ap.add_argument("--opt", action="append", default=[], help="override a tier option: key=value (python literal)")
     a = ap.parse_args(argv)
     from . import seams
 
@@ -61,6 +62,11 @@ def main(argv) -> int:
         return replay(pid, cfg, a.replay)
     opts = dict(cfg.get("opts") or {})
     opts.update(cfg.get(f"{a.tier}_opts") or {})
+    import ast
+
+    for kv in a.opt:
+        k, v = kv.split("=", 1)
+        opts[k] = ast.literal_eval(v)
     n_runs = a.runs if a.runs is not None else cfg["quick_runs"]
     budget = None
     if a.tier == "thorough" and a.runs is None:
